@@ -180,14 +180,48 @@ pub fn workers() -> usize {
         .unwrap_or_else(|| std::thread::available_parallelism().map(|n| n.get()).unwrap_or(8).min(16))
 }
 
-/// Run `n` cases on a worker pool. Results are merged in case-index order so the
-/// outcome does not depend on thread timing.
-pub fn run_cases(check: &dyn Check, cases: Vec<Case>, deadline: Option<Instant>) -> (Vec<(Case, CaseResult)>, usize) {
-    let n = cases.len();
+/// What a streamed run keeps: merged statistics, one digest per case (combined in index
+/// order afterwards), and only the cases that produced violations or harness errors.
+pub struct StreamResult {
+    pub stats: Stats,
+    pub digests: Vec<u64>,
+    pub flagged: Vec<(usize, Case, CaseResult)>,
+    pub done: usize,
+}
+
+fn case_digest(case: &Case, r: &CaseResult) -> u64 {
+    let mut digest: u64 = 0xcbf29ce484222325;
+    digest = crate::prng::fnv_bytes(digest, &case.seed.to_le_bytes());
+    for (k, v) in &r.stats.counters {
+        digest = crate::prng::fnv_bytes(digest, k.as_bytes());
+        digest = crate::prng::fnv_bytes(digest, &v.to_le_bytes());
+    }
+    for (k, v) in &r.stats.sets {
+        digest = crate::prng::fnv_bytes(digest, k.as_bytes());
+        for h in v {
+            digest = crate::prng::fnv_bytes(digest, &h.to_le_bytes());
+        }
+    }
+    for v in &r.viols {
+        digest = crate::prng::fnv_bytes(digest, v.class.as_bytes());
+    }
+    digest
+}
+
+/// Generate and run cases 0..n on a worker pool without keeping them: statistics are merged
+/// as cases finish (counters add, sets unite — order independent), per-case digests are
+/// stored by index, samples are taken from the lowest indices.
+pub fn run_cases_streamed(check: &dyn Check, n: usize, master_seed: u64, tier: &str, avoid: &[String], deadline: Option<Instant>) -> StreamResult {
     let next = AtomicU64::new(0);
     let stop = AtomicBool::new(false);
-    let results: Mutex<Vec<Option<(Case, CaseResult)>>> = Mutex::new((0..n).map(|_| None).collect());
-    let cases_ref = &cases;
+    struct Acc {
+        stats: Stats,
+        digests: Vec<u64>,
+        flagged: Vec<(usize, Case, CaseResult)>,
+        samples: BTreeMap<usize, Vec<Value>>,
+        done: usize,
+    }
+    let acc = Mutex::new(Acc { stats: Stats::default(), digests: vec![0; n], flagged: Vec::new(), samples: BTreeMap::new(), done: 0 });
     std::thread::scope(|s| {
         for _ in 0..workers().min(n.max(1)) {
             s.spawn(|| {
@@ -205,16 +239,43 @@ pub fn run_cases(check: &dyn Check, cases: Vec<Case>, deadline: Option<Instant>)
                         stop.store(true, Ordering::Relaxed);
                         break;
                     }
-                    let case = cases_ref[i].clone();
-                    let r = check.run_case(&case);
-                    results.lock().unwrap()[i] = Some((case, r));
+                    let case = check.gen_case(case_seed(master_seed, i), i, tier, avoid);
+                    let mut r = check.run_case(&case);
+                    let dg = case_digest(&case, &r);
+                    let samples = std::mem::take(&mut r.stats.samples);
+                    let mut a = acc.lock().unwrap();
+                    a.digests[i] = dg;
+                    a.done += 1;
+                    if !samples.is_empty() && (a.samples.len() < 3 || a.samples.keys().next_back().map(|k| *k > i).unwrap_or(false)) {
+                        a.samples.insert(i, samples);
+                        while a.samples.len() > 3 {
+                            let last = *a.samples.keys().next_back().unwrap();
+                            a.samples.remove(&last);
+                        }
+                    }
+                    if !r.viols.is_empty() || r.harness_error.is_some() {
+                        let st = std::mem::take(&mut r.stats);
+                        a.stats.merge(st);
+                        if a.flagged.len() < 5000 {
+                            a.flagged.push((i, case, r));
+                        }
+                    } else {
+                        a.stats.merge(r.stats);
+                    }
                 }
             });
         }
     });
-    let v: Vec<(Case, CaseResult)> = results.into_inner().unwrap().into_iter().flatten().collect();
-    let done = v.len();
-    (v, done)
+    let mut a = acc.into_inner().unwrap();
+    a.flagged.sort_by_key(|(i, _, _)| *i);
+    for (_, v) in std::mem::take(&mut a.samples) {
+        for s in v {
+            if a.stats.samples.len() < 3 {
+                a.stats.samples.push(s);
+            }
+        }
+    }
+    StreamResult { stats: a.stats, digests: a.digests, flagged: a.flagged, done: a.done }
 }
 
 fn same_class(r: &CaseResult, class: &str) -> Option<Viol> {
@@ -506,35 +567,25 @@ pub fn run_check(check: &dyn Check, tier: &str, master_seed: u64) -> RunSummary 
 
     // 2. strict exploration under the avoidance constraints
     let n = check.budget(tier);
-    let cases: Vec<Case> = (0..n).map(|i| check.gen_case(case_seed(master_seed, i), i, tier, &avoid)).collect();
     let wall_cap = std::env::var("VERIF_WALL_CAP_S").ok().and_then(|s| s.parse::<u64>().ok());
     let deadline = wall_cap.map(|s| t0 + std::time::Duration::from_secs(s));
-    let (results, done) = run_cases(check, cases, deadline);
+    let sr = run_cases_streamed(check, n, master_seed, tier, &avoid, deadline);
+    let done = sr.done;
     let mut first_viols: Vec<(Case, Viol)> = Vec::new();
     let mut classes_seen: BTreeSet<String> = BTreeSet::new();
     let mut nviol = 0u64;
     // digest of everything the run observed, in case order: two runs of the same seed must agree
     let mut digest: u64 = 0xcbf29ce484222325;
+    for d in &sr.digests {
+        digest = crate::prng::fnv_bytes(digest, &d.to_le_bytes());
+    }
     let mut class_hist: BTreeMap<String, u64> = BTreeMap::new();
     let class_filter = std::env::var("VERIF_CLASS_FILTER").ok();
     let max_report: usize = std::env::var("VERIF_MAX_REPORT").ok().and_then(|s| s.parse().ok()).unwrap_or(4);
-    for (case, r) in results {
+    total.merge(sr.stats);
+    for (_, case, r) in sr.flagged {
         if let Some(e) = r.harness_error {
             harness_errors.push(format!("case seed {}: {e}", case.seed));
-        }
-        digest = crate::prng::fnv_bytes(digest, &case.seed.to_le_bytes());
-        for (k, v) in &r.stats.counters {
-            digest = crate::prng::fnv_bytes(digest, k.as_bytes());
-            digest = crate::prng::fnv_bytes(digest, &v.to_le_bytes());
-        }
-        for (k, v) in &r.stats.sets {
-            digest = crate::prng::fnv_bytes(digest, k.as_bytes());
-            for h in v {
-                digest = crate::prng::fnv_bytes(digest, &h.to_le_bytes());
-            }
-        }
-        for v in &r.viols {
-            digest = crate::prng::fnv_bytes(digest, v.class.as_bytes());
         }
         for v in &r.viols {
             nviol += 1;
@@ -548,7 +599,6 @@ pub fn run_check(check: &dyn Check, tier: &str, master_seed: u64) -> RunSummary 
                 first_viols.push((case.clone(), v.clone()));
             }
         }
-        total.merge(r.stats);
     }
     total.add("cases", done as u64);
 
